@@ -29,7 +29,7 @@ def export_sig(quick):
         "Measure(destructive=False, override_bits=True)", "Discard()", "Discard(bit)",
         "scalar(0.5j)", "scalar(0.25, is_mixed=True)", "sqrt(2)",
         "ClassicalGate('noisy', 1, 1, [0.9, 0.1, 0.2, 0.8])", "Copy()", "Match()", "Bits(1).dagger()",
-        "Swap(bit, bit)", "Swap(bit, qubit)", "Swap(qubit, bit)", "S.dagger()", "Controlled(Z)")]
+        "Swap(bit, bit)", "Swap(bit, qubit)", "Swap(qubit, bit)", "S.dagger()", "Controlled(Z)", "Rx(0.3004)")]
     if not quick:
         sig += [("e", x) for x in ("Rx(1.25)", "Rz(0.5)", "CRz(-0.7)", "T.dagger()", "Controlled(S)", "Measure(2)", "Bits(0, 0)")]
     return sig
@@ -203,6 +203,8 @@ def check_import(params):
     def bad(kind, msg):
         desc = "".join(".%s(%s)" % (n, ", ".join(map(str, list(p) + list(a)))) for n, a, p in cmds)
         out.append((_sig(kind, params), "tk.Circuit(%d, %d)%s: %s" % (nq, nb, desc, msg)))
+    before = [(cmd.op.type.name, tuple(cmd.op.params), [q.index for q in cmd.qubits], [b.index for b in cmd.bits])
+              for cmd in t.get_commands()]
     try:
         c = Circuit.from_tk(t)
     except NotImplementedError:
@@ -210,6 +212,11 @@ def check_import(params):
         return out
     except Exception as e:  # noqa
         bad("from_tk-raises", "%s: %s" % (type(e).__name__, str(e)[:150]))
+        return out
+    after = [(cmd.op.type.name, tuple(cmd.op.params), [q.index for q in cmd.qubits], [b.index for b in cmd.bits])
+             for cmd in t.get_commands()]
+    if after != before or (t.n_qubits, len(t.bits)) != (nq, nb):
+        bad("argument-mutated", "from_tk changed the tket circuit it was given")
         return out
     errs = ref.scan(c)
     if errs:
